@@ -193,6 +193,9 @@ def cases(tier, seed):
             yield ['world', wi, ni]
     yield ['stdout', None, None]
     yield ['oserror', None, None]
+    for f in XFAULTS:
+        for argv in ([], ['-j2'], ['-j3', '-v']):
+            yield ['xfault', f, argv]
     # (b) crash matrix
     points = ['import', 'layer_setUp', 'test_setUp', 'test_body', 'test_tearDown',
               'layer_tearDown']
@@ -367,6 +370,25 @@ def run_case(case):
                     viol.append(('exception_escaped', {'part': 'oserror'}, 'errno %s: %r' % (_errno.errorcode[en], exc)))
                 elif [e[0] for e in errors] != ['subprocess for vtw.tests.L'] or failures or not res.done:
                     viol.append(('spawn_failure_not_recorded', {'part': 'oserror'}, 'errno %s: errors=%r failures=%r done=%s' % (_errno.errorcode[en], errors, failures, res.done)))
+    elif kind == 'xfault':
+        spec = ow.build('N1B2C1', ['pass', 'pass', 'pass', 'pass'])
+        first = []
+
+        def hook(layer, args):
+            if not first:
+                first.append(layer)
+                return XFAULTS[a]
+            return None
+        res = runrt.run_world(spec, ['-x'] + list(b), child_hook=hook)   # a hang raises RunHang
+        evals = 1
+        sig = {'part': 'xfault', 'fault': a, 'argv': ' '.join(b)}
+        if res.escaped:
+            viol.append(('run_aborted', sig, res.escaped_tb))
+        else:
+            en = [e for e in (res.errors or [])]
+            if not res.failed or len(en) != 1 or not first or first[0] not in en[0] or res.failures:
+                viol.append(('fault_not_recorded_once', sig, 'the first child (%s) %s under -x %s: failed=%s errors=%s failures=%s'
+                             % (first, a, b, res.failed, res.errors, res.failures)))
     elif kind == 'crash':
         evals, vs = run_crash(a[0], a[1], b)
         viol += vs
@@ -416,7 +438,14 @@ NOISE_WORLDS = [
     ('N1B2C1', ['pass', 'FAILW', 'pass', 'error'], ['--buffer']),
     ('A2B1i', ['FAILW', 'fail', 'error'], ['-j2', '--buffer']),
     ('A2B1i', ['FAILW', 'pass', 'pass'], ['-j2']),
+    # --stop-on-error: layers that are never started must not keep the parent waiting
+    ('N1B2C1', ['pass', 'fail', None, 'error'], ['-x']),
+    ('N1B2C1', ['pass', None, 'fail', 'pass'], ['-x', '-j2']),
+    ('A2B1i', ['fail', None, 'error'], ['-j2', '--stop-on-error', '-v']),
 ]
+# a child that fails to start / dies without a report, under --stop-on-error
+XFAULTS = {'oserror': ('oserror',), 'silent': ('bytes', b'', b''),
+           'header_only': ('bytes', b'', b'2 1 0\n'), 'garbage': ('bytes', b'', b'Fatal Python error: Segmentation fault\n\n')}
 # what the noisy test writes through sys.stdout / sys.stderr (never the real
 # fd 2: that is the known header-spoofing finding)
 TEST_NOISE = [
